@@ -489,3 +489,39 @@ Section C13Wild.
     eapply overlay_srcs_notifs; eauto.
   Qed.
 End C13Wild.
+
+(* ---- backslash escapes: on backslash-free components the escape-aware functions of
+   resolve_wild are the plain ones (has_wild / split_wild / glob), which is what the
+   source-equivalence theorems splitWildcards_src_eq / copy_containsWildcards_src_eq speak about *)
+Lemma has_wild_e_plain c : existsb (N.eqb ch_bsl) c = false -> has_wild_e c = has_wild c.
+Proof.
+  unfold has_wild. induction c as [|x r IH]; auto. cbn [existsb has_wild_e].
+  intro H. apply orb_false_iff in H as [H1 H2]. rewrite N.eqb_sym, H1, (IH H2). reflexivity.
+Qed.
+
+Lemma split_wild_e_plain cs : forallb (fun c => negb (existsb (N.eqb ch_bsl) c)) cs = true ->
+  split_wild_e cs = split_wild cs.
+Proof.
+  induction cs as [|c r IH]; auto. cbn [forallb split_wild_e split_wild].
+  intro H. apply andb_true_iff in H as [H1 H2]. apply negb_true_iff in H1.
+  rewrite (has_wild_e_plain c H1), (IH H2). reflexivity.
+Qed.
+
+Lemma glob_e_plain : forall pat, existsb (N.eqb ch_bsl) pat = false -> forall name, glob_e pat name = glob pat name.
+Proof.
+  induction pat as [|c pr IH]; auto. cbn [existsb]. intro H. apply orb_false_iff in H as [H1 H2].
+  specialize (IH H2). intro name. cbn [glob_e glob]. rewrite (N.eqb_sym c ch_bsl), H1.
+  destruct (N.eqb c ch_star).
+  - induction name as [|x n IHn]; [rewrite IH; reflexivity|]. rewrite IH, IHn. reflexivity.
+  - destruct name; auto. rewrite IH. reflexivity.
+Qed.
+
+(* the escape rules themselves, on the shapes of the seeded change: an escaped metacharacter does
+   not make a component a pattern, a real one after it does *)
+Example has_wild_e_examples :
+  has_wild_e [92; 91; 42] = true /\ has_wild_e [120; 92; 63; 63] = true /\
+  has_wild_e [92; 91] = false /\ has_wild_e [97; 92; 42] = false /\ has_wild_e [92; 92; 42] = true /\
+  glob_e [92; 91; 42] [91; 97; 98] = true /\ glob_e [120; 92; 63; 63] [120; 63; 122] = true /\
+  glob_e [120; 92; 63; 63] [120; 121; 122] = false.
+Proof. vm_compute. repeat split. Qed.
+
